@@ -30,6 +30,17 @@ type valErr struct{ msg string }
 
 func (e valErr) Error() string { return e.msg }
 
+// sliceErr / mapErr are error types whose dynamic kind is a slice / a map (like a list of
+// validation errors, or errors keyed by field). A nil value of such a type stored in an `error`
+// is a non-nil interface: `err != nil` holds and Error() can be called (finding F-02c).
+type sliceErr []string
+
+func (e sliceErr) Error() string { return MsgNilSliceErr }
+
+type mapErr map[string]string
+
+func (e mapErr) Error() string { return MsgNilMapErr }
+
 type promise struct {
 	id   int
 	ch   graphql.ResolvePromise
@@ -137,9 +148,15 @@ func resolver(idx int, f *FShape) func(graphql.FieldContext) (interface{}, error
 		var val any
 		var err error
 		if wf.Err != "" {
-			if wf.ErrKind == "value" {
+			switch wf.ErrKind {
+			case "value":
 				err = valErr{wf.Err}
-			} else {
+			case "nilslice":
+				// a value next to an error whose dynamic value is a nil slice / nil map
+				val, err = 7, sliceErr(nil)
+			case "nilmap":
+				val, err = 7, mapErr(nil)
+			default:
 				err = &ptrErr{wf.Err}
 			}
 		} else {
